@@ -203,6 +203,17 @@ def check_class(drv, cls, class_dump, values, out, stats, label, history=None):
                 out.failures.append({"case": case, "what": f"annotation {text!r} cannot be read: {exc}", "finding": None})
                 return
             if not ok:
+                if finding is not None and class_dump is not None:
+                    # ... and only where the model also accepts this very value: a value the unchanged code refuses is a different failure
+                    texts = set()
+                    core.all_strings(class_dump, texts)
+                    core.all_strings(v, texts)
+                    try:
+                        rep = drv.ask({"op": "elem_call", "elem": class_dump, "args": [core.enc_arg(v)], "tables": core.make_tables(set(), set(), sorted(texts))})
+                    except (TypeError, ValueError):
+                        rep = {"error": "unencodable"}
+                    if "error" in rep or rep["results"][0].get("r") != "ok":
+                        finding = None
                 out.failures.append({"case": case, "what": f"{cls.__name__}.{name} is annotated {text} but holds {attr!r}", "finding": finding})
                 return
             if not text.startswith("Maybe["):
@@ -271,8 +282,25 @@ def allof_family(rng):
     members = [first, second] if rng.random() < 0.8 else [second, first]
     inner = {"cls": "AllOf", "kw": {}, "elements": members}
     if rng.random() < 0.3:
-        return {"cls": "Array", "kw": {"itemsKind": "single"}, "items": [inner]}, [[1, 2], [3], [], [{"a": 1}], ["s"], 3]
-    return inner, [{"a": 1}, "s", [{"a": 2}], 3, [], {}, 4, 2.5]
+        return {"cls": "Array", "kw": {"itemsKind": "single"}, "items": [inner]}, [[1, 2], [3], [], [{"a": 1}], ["s"], 3, [4.0], [2.0, 1], [True]]
+    return inner, [{"a": 1}, "s", [{"a": 2}], 3, [], {}, 4, 2.5, 2.0, 4.0, -0.0, True]
+
+
+def allof_unions_family(rng):
+    """an AllOf made only of unions that share one member annotation and have other members accepting a common value"""
+    def cls(name, prop, kind):
+        return {"cls": "Object", "name": name, "kw": {"hasProps": True}, "props": [[{"name": prop, "source": prop, "required": True}, {"cls": kind, "kw": {}}]]}
+    if rng.random() < 0.5:
+        circle, disc, square = cls("Circle", "radius", "Number"), cls("Disc", "radius", "Number"), cls("Square", "side", "Number")
+        u1 = {"cls": rng.choice(["AnyOf", "OneOf"]), "kw": {}, "elements": [circle, square]}
+        u2 = {"cls": rng.choice(["AnyOf", "OneOf"]), "kw": {}, "elements": [disc, square]}
+        vals = [{"radius": 1}, {"side": 2}, {"radius": 1.5}, {}, 3, {"side": "x"}]
+    else:
+        u1 = {"cls": "AnyOf", "kw": {}, "elements": [{"cls": "Number", "kw": {}}, {"cls": "String", "kw": {}}]}
+        u2 = {"cls": rng.choice(["AnyOf", "OneOf"]), "kw": {}, "elements": [{"cls": "Integer", "kw": {}}, {"cls": "String", "kw": {}}]}
+        vals = [3, "s", 2.5, None, 0, True]
+    members = [u1, u2] if rng.random() < 0.7 else [u2, u1]
+    return {"cls": "AllOf", "kw": {}, "elements": members}, vals
 
 
 def class_default_family(rng):
@@ -296,7 +324,7 @@ def run(ctx, scale=1.0):
         dg, vg = dsl.DumpGen(rng), ValueGen(rng)
         n = int(N_TREES[ctx["tier"]] * scale)
         for i in range(n):
-            fam = ["random", "random", "class-default", "twin-tuple", "composition", "random", "subclass", "allof"][i % 8]
+            fam = ["random", "random", "class-default", "twin-tuple", "composition", "random", "subclass", "allof", "random", "allof-unions"][i % 10]
             stats["family-" + fam] = stats.get("family-" + fam, 0) + 1
             if fam == "subclass":
                 check_subclass(drv, rng, dg, out, stats, i)
@@ -312,6 +340,8 @@ def run(ctx, scale=1.0):
                     sub, vals = allof_family(rng)
                 elif fam == "class-default":
                     sub, vals = class_default_family(rng)
+                elif fam == "allof-unions":
+                    sub, vals = allof_unions_family(rng)
                 else:
                     sub = dg.dump(3)
                     try:
